@@ -24,7 +24,9 @@
 package hdf5
 
 import (
+	"bytes"
 	"encoding/binary"
+	"encoding/gob"
 	"errors"
 	"fmt"
 	"os"
@@ -127,9 +129,82 @@ type node struct {
 type fileData struct {
 	name string
 	root *node
+	// marker file size / mtime when this process last saved or loaded it (Persist)
+	stampSize, stampTime int64
 }
 
 var files = map[string]*fileData{}
+
+// Persist makes files survive the process: a read-write handle's Close serialises the whole file
+// into its marker file, and a file that is not in memory (or whose marker changed on disk since
+// this process last synchronised it) is loaded from there. Off by default (in-memory only); used
+// for ow-sim's split-output writer, which is a separate process.
+var Persist = os.Getenv("FAKEHDF5_PERSIST") == "1"
+
+type pnode struct {
+	Group    bool
+	Names    []string
+	Children []pnode
+	Class    int
+	Size     uint
+	Signed   bool
+	Dims     []uint
+	Data     []byte
+}
+
+func toP(n *node) pnode {
+	p := pnode{Group: n.group, Class: int(n.typ.class), Size: n.typ.size, Signed: n.typ.signed, Dims: n.dims, Data: n.data}
+	for _, name := range n.order {
+		p.Names = append(p.Names, name)
+		p.Children = append(p.Children, toP(n.children[name]))
+	}
+	return p
+}
+
+func fromP(p pnode) *node {
+	n := &node{group: p.Group, typ: dtype{typeClass(p.Class), p.Size, p.Signed}, dims: p.Dims, data: p.Data}
+	if p.Group {
+		n.children = map[string]*node{}
+		for i, name := range p.Names {
+			n.order = append(n.order, name)
+			n.children[name] = fromP(p.Children[i])
+		}
+	}
+	return n
+}
+
+const persistMagic = "fake-hdf5 gob\n"
+
+func (fd *fileData) save() {
+	var b bytes.Buffer
+	b.WriteString(persistMagic)
+	if err := gob.NewEncoder(&b).Encode(toP(fd.root)); err != nil {
+		return
+	}
+	tmp := fd.name + ".tmp"
+	if os.WriteFile(tmp, b.Bytes(), 0o644) == nil {
+		os.Rename(tmp, fd.name)
+	}
+	if st, err := os.Stat(fd.name); err == nil {
+		fd.stampSize, fd.stampTime = st.Size(), st.ModTime().UnixNano()
+	}
+}
+
+func loadPersisted(name string) *fileData {
+	b, err := os.ReadFile(name)
+	if err != nil || !bytes.HasPrefix(b, []byte(persistMagic)) {
+		return nil
+	}
+	var p pnode
+	if gob.NewDecoder(bytes.NewReader(b[len(persistMagic):])).Decode(&p) != nil {
+		return nil
+	}
+	fd := &fileData{name: name, root: fromP(p)}
+	if st, err := os.Stat(name); err == nil {
+		fd.stampSize, fd.stampTime = st.Size(), st.ModTime().UnixNano()
+	}
+	return fd
+}
 
 // Reset forgets every file (and removes the marker files).
 func Reset() {
@@ -144,12 +219,16 @@ func Reset() {
 // removed behind the stand-in's back (os.Remove by the code under test).
 func live(name string) *fileData {
 	fd := files[name]
-	if fd == nil {
-		return nil
-	}
-	if _, err := os.Stat(name); err != nil {
+	st, err := os.Stat(name)
+	if err != nil {
 		delete(files, name)
 		return nil
+	}
+	if Persist && (fd == nil || st.Size() != fd.stampSize || st.ModTime().UnixNano() != fd.stampTime) {
+		if l := loadPersisted(name); l != nil {
+			files[name] = l
+			return l
+		}
 	}
 	return fd
 }
@@ -214,7 +293,12 @@ func OpenFile(name string, flags int) (*File, error) {
 	return &File{CommonFG{file: fd, n: fd.root, path: "/", rw: flags&F_ACC_RDWR != 0}}, nil
 }
 
-func (f *File) Close() error     { return nil }
+func (f *File) Close() error {
+	if Persist && f.rw {
+		f.file.save()
+	}
+	return nil
+}
 func (f *File) FileName() string { return f.file.name }
 func (g *Group) Close() error    { return nil }
 
